@@ -166,6 +166,16 @@ fn test_case(c: &Case, sh: &Shared) -> Result<CaseInfo, Fail> {
                         return Err(Fail::new("C06|plain-input-in-traffic", format!("the 128 plain input bits of party {p} (or their complement) appear as 0/1 bytes at offset {off} stride {stride} of its {:?} message", msg.label)));
                     }
                 }
+                // the party's own mask shares of its input wires are never sent: the only share messages
+                // it sends after input processing carry entries for output registers
+                let outs: std::collections::BTreeSet<usize> = case.circ.output_regs.iter().map(|r| *r as usize).collect();
+                for msg in run.res.msgs.iter().filter(|x| x.from == p && x.label == "output wire shares") {
+                    if let Some(v) = decode(msg) {
+                        if let Some(w) = crate::trace::some_positions(&v).into_iter().find(|w| !outs.contains(w)) {
+                            return Err(Fail::new("C06|own-mask-share-disclosed", format!("party {p} sends its own mask share of register {w} (not an output register) to party {} in {:?}", msg.to, msg.label)));
+                        }
+                    }
+                }
                 // mask vector r_p = revealed XOR input, must never repeat
                 let b = revealed_bits(&case, &run.res, p).map_err(|e| Fail::new("INFRA", e))?;
                 let r = b.iter().zip(inputs[p].iter()).fold(0u128, |acc, (x, y)| (acc << 1) | (*x ^ *y) as u128);
@@ -192,7 +202,7 @@ fn note_deltas(res: &RunResult<Vec<bool>>, sh: &Shared) -> Result<(), Fail> {
 pub fn run(tier: Tier, seed: u64) -> i32 {
     let ctx = Ctx::new("C06", tier, seed, "exploration");
     let big_n = tier.pick(400usize, 4000);
-    ctx.set_rule(&format!("repeated executions (the engine's own coins are the random variable): (i) balance - n in {{2,3}}, 136 input bits per party (wire indices 0..407, i.e. every position of the 64/128-bit words in which the preprocessing bit strings are handled), every input fixed to 0 for N={big_n} runs and to 1 for N runs; from the transcript only, b = masked_input[w] XOR (shares the others sent to the owner) = x_w XOR r_P[w]; per (n, party, wire, value) cell the number of ones must lie within 6.5 sigma of N/2 (two-sided tail 8e-11 per cell, 1360 cells => < 1.1e-7 per run); (ii) canary - 128 random input bits per party: neither they nor their complement occur in any message the party sends, as packed bit stream (both bit orders, both wire orders, every bit offset) or as 0/1 bytes at any offset and stride 1..40; (iii) uniqueness of every global key (probe) and every 128-bit mask vector over all parties and executions. non-trivial = a balance cell with N complete runs / a canary execution; evaluations counts engine executions"));
+    ctx.set_rule(&format!("repeated executions (the engine's own coins are the random variable): (i) balance - n in {{2,3}}, 136 input bits per party (wire indices 0..407, i.e. every position of the 64/128-bit words in which the preprocessing bit strings are handled), every input fixed to 0 for N={big_n} runs and to 1 for N runs; from the transcript only, b = masked_input[w] XOR (shares the others sent to the owner) = x_w XOR r_P[w]; per (n, party, wire, value) cell the number of ones must lie within 6.5 sigma of N/2 (two-sided tail 8e-11 per cell, 1360 cells => < 1.1e-7 per run); (ii) canary - 128 random input bits per party: neither they nor their complement occur in any message the party sends, as packed bit stream (both bit orders, both wire orders, every bit offset) or as 0/1 bytes at any offset and stride 1..40; (iii) no own mask share of a non-output register in the share messages of the output phase; (iv) uniqueness of every global key (probe) and every 128-bit mask vector over all parties and executions. non-trivial = a balance cell with N complete runs / a canary execution; evaluations counts engine executions"));
     ctx.assume("statistical: detects a constant or grossly biased mask, reuse and plain leakage; not cryptographic weakness of the generator");
     let sh = Shared { deltas: Default::default(), delta_count: Default::default(), masks: Default::default(), mask_count: Default::default(), counts: Default::default() };
     let chunk = 25;
